@@ -167,3 +167,18 @@ Proof.
 Qed.
 
 End Writer.
+
+(* ---- MarshalText and Write of a tree ----------------------------------------------------------------- *)
+Theorem imp_newick_MarshalText o fuel t : (size t < fuel)%nat ->
+  imp_newick_Node_MarshalText fuel o (node_of t) = Ret (marshal o t, false).
+Proof.
+  intros Hf. unfold imp_newick_Node_MarshalText, marshal. cbv zeta.
+  rewrite (imp_newick_write o fuel t [] Hf). reflexivity.
+Qed.
+
+Theorem imp_newick_Write o fuel t : (size t < fuel)%nat ->
+  imp_newick_Node_Write fuel o (node_of t) = Ret (write_chunks o t, false).
+Proof.
+  intros Hf. unfold imp_newick_Node_Write, write_chunks. cbv zeta.
+  rewrite (imp_newick_MarshalText o fuel t Hf). reflexivity.
+Qed.
